@@ -4,6 +4,7 @@ Property theorems only. Model: `FlexModel/Net/Stack.lean` (BTP header, GN source
 service buffers, receive side with DAD/DPD/area test/forwarding; two stations on a reliable medium).
 -/
 import FlexModel.Net.Lemmas
+import FlexModel.Net.Flood
 
 namespace Props.C01
 open FlexModel.Net
@@ -69,6 +70,20 @@ theorem flush_in_order (s : Station) (de : Addr) (q : List Req) :
         simp [gucPkt] at this ⊢
         omega
       · exact i4
+
+/-- a unicast request issued while a location-service lookup for its destination is pending is queued behind the
+requests already waiting — nothing is transmitted, no sequence number is consumed — whatever else the station
+received in between (the state `s` is arbitrary) -/
+theorem request_queues_while_pending (s : Station) (r : Req) (de : Addr) (q : List Req)
+    (ht : r.transport = .guc de) (hp : lookupPending s.pending de = some q) :
+    request s r = ({ s with pending := setPending s.pending de (q ++ [r]) }, []) := by
+  simp [request, ht, hp]
+
+/-- the location-service retransmission only repeats the LS request: the packet buffer is untouched -/
+theorem retransmit_keeps_buffer (s : Station) (de : Addr) :
+    (lsRetransmit s de).1.pending = s.pending ∧ ∀ p ∈ (lsRetransmit s de).2, p.kind = .lsReq de := by
+  unfold lsRetransmit
+  cases lookupPending s.pending de <;> simp
 
 /-! ## Two stations on a reliable medium: exactly-once, byte-identical, in order -/
 
